@@ -352,6 +352,43 @@ pub fn gen(tier: Tier, rng: &mut Rng64, out: &mut Out) {
         };
         run("C18.cmp", &trip, out);
     }
+    // --- operands with more than 65 536 nodes (dense pseudo-random functions of 20 variables, ~107 000 nodes,
+    //     built by the oracle builder from truth tables; relations known by construction AND recomputed by the
+    //     driver from the 2^20-entry truth tables): the shared apply engine behind cmp_implies and the exact
+    //     counts behind cmp_cardinality(_strict) must not depend on pointers fitting 16 bits
+    for k in 0..(if thorough { 6 } else { 2 }) {
+        let n = 20usize;
+        let size = 1usize << n;
+        let tf: Vec<bool> = (0..size).map(|_| rng.bool()).collect();
+        let th: Vec<bool> = match k % 3 {
+            0 => (0..size).map(|i| i & 3 == 3).collect(),                     // x18 & x19
+            1 => (0..size).map(|i| (i >> 19) & 1 == 1 && i & 1 == 0).collect(), // x0 & !x19
+            _ => (0..size).map(|i| (i >> 7) & 1 == 1).collect(),              // x12
+        };
+        let t = |tt: &Vec<bool>| fmt_triples(&canon_triples(n, tt));
+        let f = t(&tf);
+        if k % 2 == 0 {
+            let tor: Vec<bool> = (0..size).map(|i| tf[i] || th[i]).collect();
+            let tand: Vec<bool> = (0..size).map(|i| tf[i] && th[i]).collect();
+            run("C18.cmp", &[t(&tand), f.clone(), t(&tor)], out);              // and => f => or  (Less, Less, Less)
+        } else {
+            let tg: Vec<bool> = (0..size).map(|_| rng.bool()).collect();
+            let tnot: Vec<bool> = tf.iter().map(|b| !*b).collect();
+            run("C18.cmp", &[f.clone(), t(&tg), t(&tnot)], out);               // incomparable big operands, and the negation
+        }
+        if thorough || k == 0 {
+            // exact counts one apart on big operands: f minus one satisfying valuation, f, f plus one falsifying valuation
+            let i1 = (0..size).map(|j| (j * 7919 + k) % size).find(|j| tf[*j]).unwrap();
+            let i0 = (0..size).map(|j| (j * 104729 + k) % size).find(|j| !tf[*j]).unwrap();
+            let mut tminus = tf.clone(); tminus[i1] = false;
+            let mut tplus = tf.clone(); tplus[i0] = true;
+            run("C18.cmp", &[t(&tminus), f.clone(), t(&tplus)], out);
+        }
+        if thorough {
+            let tor: Vec<bool> = (0..size).map(|i| tf[i] || th[i]).collect();
+            run("C18.cmp", &[t(&tor), f.clone(), t(&th)], out);                // Greater, and a small operand against big ones
+        }
+    }
     // --- wide operands: exact counts equal or one apart at n >= 52
     gen_wide_cmp(thorough, rng, out);
 }
